@@ -1,21 +1,31 @@
 (* C04/Corr.v -- comparator for the loader.  codes:
-   1  observed differs from the model          3  input outside the stated regime (harness bug)
+   1  observed differs from the model          3  input outside the stated regime (harness bug):
+                                                  a generated directory on which wf_b (Spec.v) is false, or a
+                                                  "malformed" case the model accepts
    20 load failed/crashed on a well-formed dataset
-   21 spike samples / times                    22 spike templates / clusters / amplitudes
+   21 spike samples / times (+ spike_times_reordered)   22 spike templates / clusters / amplitudes
    23 channel map / positions / shanks / probes  24 template waveforms (+ column table)
    25 whitening matrix / inverse (inverse judged in exact arithmetic: every entry of wm * wmi - I is at most 2^-30)
    26 similar templates   27 extra per-spike attributes   28 frame: pre-existing files changed, or
    files created other than the spike-cluster copy / inverse whitening matrix when missing (or wrong content)
-   29 non-monotonic spike times not rejected   30 raw traces (columns permuted by the channel map) *)
+   29 non-monotonic spike times not rejected   30 raw traces (columns permuted by the channel map)
+   31 constructor arguments: kwargs / load_model(params.py) / alternative params.py spelling give the arguments
+      the model of get_template_params + read_python + __init__ computes
+   Malformed directories (InMalformed: exactly one well-formedness condition broken by the generator) are judged
+   on the determined observable only (code 1): the exception class of the model's error exit. *)
 From Coq Require Import ZArith List Bool String.
-From PV Require Export Base.Tok Base.TokArith Base.FloatTok C04.Model.
+From PV Require Export Base.Tok Base.TokArith Base.FloatTok C04.Model C04.Model2 C04.Spec C04.Params.
 Import ListNotations.
 Open Scope string_scope.
 Open Scope list_scope.
 Open Scope Z_scope.
 
+Inductive route_in := RKw (d : dict) | RPy (a : list (string * pyval)).
 Record inp := mkinp { i_files : files; i_rate : tok; i_ncd : option Z;
-                      i_raw : option (list (list (list tok))) }.
+                      i_raw : option (list (list (list tok)));
+                      i_dir : string;                 (* placeholder for the dataset directory *)
+                      i_names : list string;          (* raw file names, relative to the directory *)
+                      i_route : route_in }.
 Record obsrec := mkobs {
   o_samples : arr; o_times : arr; o_amps : option arr; o_stemplates : arr; o_sclusters : arr;
   o_cmap : arr; o_pos : arr; o_shanks : arr; o_probes : arr;
@@ -23,10 +33,12 @@ Record obsrec := mkobs {
   o_attrs : list (string * arr);
   o_new : files;                 (* files present after loading that were not there before, as np.load reads them *)
   o_changed : list string;       (* pre-existing files whose bytes changed or that disappeared *)
-  o_traces : option arr          (* model.traces[:] as a 2-d array, None when there is no raw data *)
+  o_traces : option arr;         (* model.traces[:] as a 2-d array, None when there is no raw data *)
+  o_reordered : option arr;      (* model.spike_times_reordered *)
+  o_ctor : ctor                  (* dir_path, dat_path, dtype, offset, sample_rate, n_channels_dat of the model *)
 }.
-Inductive input := InLoad (i : inp).
-Inductive observed := ObsLoaded (o : obsrec) | ObsRejected | ObsCrash.
+Inductive input := InLoad (i : inp) | InMalformed (i : inp).
+Inductive observed := ObsLoaded (o : obsrec) | ObsRejected | ObsCrash | ObsCrashX (x : exn).
 Record case := { cid : Z; cin : input; cobs : observed }.
 
 Definition flag (code : Z) (ok : bool) : list Z := if ok then [] else [code].
@@ -40,20 +52,32 @@ Fixpoint files_eqb (a b : files) : bool :=
   end.
 Definition cmap_Z (a : arr) : option (list Z) := omap tok_Z (a_data a).
 
-Definition in_regime (i : inp) : bool :=
-  forallb (fun p => Nat.leb (n_matches p (i_files i)) 1) all_patterns &&
-  forallb (fun kv => arr_wf (snd kv)) (i_files i).
+Definition wf_c (i : inp) : bool := wf_b fdiv_tok fmul_tok round_half_even_tok (i_files i) (i_rate i) (i_ncd i).
+Definition loadc (oracle : arr -> arr) (i : inp) : xres loadedx :=
+  loadx fdiv_tok fmul_tok round_half_even_tok oracle (i_files i) (i_rate i) (i_ncd i).
 
-Definition check (c : case) : list Z :=
-  match cin c with InLoad i =>
-  if negb (in_regime i) then [3] else
-  let oracle := match cobs c with ObsLoaded o => (fun _ : arr => o_wmi o) | _ => (fun a => a) end in
-  match load fdiv_tok fmul_tok round_half_even_tok oracle (i_files i) (i_rate i) (i_ncd i), cobs c with
-  | Err ERejected, ObsRejected => []
-  | Err ERejected, _ => [1; 29]
-  | Err _, _ => [3]
-  | Ok m, ObsLoaded o =>
-      let g21 := arr_eqb (l_samples m) (o_samples o) && arr_eqb (l_times m) (o_times o) in
+(* the constructor arguments the route's model computes, and what they must be for this dataset *)
+Definition route_ctor (i : inp) : option ctor :=
+  match i_route i with RKw d => init_args d | RPy a => load_model_args (i_dir i) a end.
+Definition ctor_ok (i : inp) (c : ctor) : bool :=
+  match route_ctor i with
+  | Some k => ctor_eqb k c && tok_eqb (k_rate k) (i_rate i) && optz_eqb (k_ncd k) (i_ncd i) &&
+              String.eqb (k_dir k) (i_dir i) && strl_eqb (k_dats k) (map (join (i_dir i)) (i_names i))
+  | None => false
+  end.
+
+Definition check_load (i : inp) (ob : observed) : list Z :=
+  if negb (wf_c i) then [3] else
+  let oracle := match ob with ObsLoaded o => (fun _ : arr => o_wmi o) | _ => (fun a => a) end in
+  match loadc oracle i, ob with
+  | XErr ERejected, ObsRejected => []
+  | XErr ERejected, _ => [1; 29]
+  | XErr _, _ => [3]
+  | XConflict, _ => [3]
+  | XOk mx, ObsLoaded o =>
+      let m := lx mx in
+      let g21 := arr_eqb (l_samples m) (o_samples o) && arr_eqb (l_times m) (o_times o) &&
+                 oarr_eqb (lx_reordered mx) (o_reordered o) in
       let g22 := arr_eqb (l_stemplates m) (o_stemplates o) && arr_eqb (l_sclusters m) (o_sclusters o) &&
                  oarr_eqb (l_amps m) (o_amps o) in
       let g23 := arr_eqb (l_cmap m) (o_cmap o) && arr_eqb (l_pos m) (o_pos o) &&
@@ -79,11 +103,30 @@ Definition check (c : case) : list Z :=
                      end
                  | _, _ => false
                  end in
-      let all := g21 && g22 && g23 && g24 && g25 && g26 && g27 && g28 && g30 in
+      let g31 := ctor_ok i (o_ctor o) in
+      let all := g21 && g22 && g23 && g24 && g25 && g26 && g27 && g28 && g30 && g31 in
       flag 1 all ++ flag 21 g21 ++ flag 22 g22 ++ flag 23 g23 ++ flag 24 g24 ++ flag 25 g25 ++
-      flag 26 g26 ++ flag 27 g27 ++ flag 28 g28 ++ flag 30 g30
-  | Ok _, _ => [1; 20]
-  end end.
+      flag 26 g26 ++ flag 27 g27 ++ flag 28 g28 ++ flag 30 g30 ++ flag 31 g31
+  | XOk _, _ => [1; 20]
+  end.
+
+(* a malformed directory: the model names the error exit, the implementation must leave by the same one *)
+Definition check_malformed (i : inp) (ob : observed) : list Z :=
+  match loadc (fun a => a) i, ob with
+  | XErr EMissing, ObsCrashX XnIOError => []
+  | XErr EAssert, ObsCrashX XnAssertion => []
+  | XConflict, ObsCrashX _ => []          (* the message of this exit is built with a failing str.join: any exception *)
+  | XErr ERejected, ObsRejected => []
+  | XErr ERegime, _ => [3]
+  | XOk _, _ => [3]
+  | _, _ => [1]
+  end.
+
+Definition check (c : case) : list Z :=
+  match cin c with
+  | InLoad i => check_load i (cobs c)
+  | InMalformed i => check_malformed i (cobs c)
+  end.
 
 Definition run (cases : list case) : list (Z * Z) :=
   flat_map (fun c => map (fun code => (cid c, code)) (check c)) cases.
